@@ -20,6 +20,7 @@ func init() {
 			c.run("C20-R3", "WHO-WRITES: the displayed step never decreases within a file", c20R3)
 			c.run("C20-R4", "GUARD-DOM: layout ladder", c20R4)
 			c.run("C20-R5", "GUARD-DOM: name shortening measures by display width", c20R5)
+			c.run("C20-R7", "GUARD-DOM (interprocedural): counts handed to Grow / Repeat while rendering cannot be negative", c20R7)
 			c.run("C20-R6", "MUST-PASS/WHO-WRITES: the width the line is laid out for is the latest width reported to the filter", c20R6)
 		})
 }
@@ -471,6 +472,25 @@ func c20R6(c *Ctx) {
 	}
 	hit, path := reachFrom(f.Blocks[0], 0, isReturn, recorded)
 	c.check(hit == nil, "SetTerminalColumns/always-recorded", c.pos(f.Pos()), "a reported width is recorded on every path", "a reported width is not recorded when a progress bar is live: the next bar (and the bar after the stop prompt) is laid out for the old, possibly wider terminal", c.pathStr(path)...)
+	{
+		// forwarded whenever a bar is live: from the non-nil edge of the progress load no exit without the forward
+		hitF, pathF := reachFromE(f.Blocks[0], 0, isReturn, func(in ssa.Instruction) bool {
+			ci, ok := in.(ssa.CallInstruction)
+			return ok && calleeID(ci.Common()) == "(*trzsz.textProgressBar).setTerminalColumns"
+		}, func(from, to *ssa.BasicBlock) bool {
+			for _, fc := range edgeFactsTo(from, to) {
+				op, x, y, ok := cmpFact(fc)
+				if !ok || op != token.EQL || !isNilConst(y) {
+					continue
+				}
+				if call, _ := callOf(x); call != nil && isAtomicOnField(call, "progress", "Load") {
+					return true
+				}
+			}
+			return false
+		})
+		c.check(hitF == nil, "SetTerminalColumns/always-forwarded", c.pos(f.Pos()), "with a live bar the reported width always reaches it", "a reported width can fail to reach the live progress bar", c.pathStr(pathF)...)
+	}
 	fwd := callsIn(f, idIs("(*trzsz.textProgressBar).setTerminalColumns"))
 	c.check(len(fwd) > 0, "SetTerminalColumns/forwarded", c.pos(f.Pos()), "a reported width is forwarded to the live bar", "a reported width is not forwarded to the live progress bar")
 	for _, ci := range fwd {
@@ -510,6 +530,22 @@ func c20R6(c *Ctx) {
 			c.bad(nm+"/stores-width", c.pos(g.Pos()), "the width is never stored")
 			continue
 		}
+		{
+			// on every path (a nil receiver excepted): no exit before the store
+			hit, path := reachFromE(g.Blocks[0], 0, isReturn, func(in ssa.Instruction) bool {
+				ci, ok := in.(ssa.CallInstruction)
+				return ok && isAtomicOnField(ci, "columns", "Store")
+			}, func(from, to *ssa.BasicBlock) bool {
+				for _, fc := range edgeFactsTo(from, to) {
+					op, x, y, ok := cmpFact(fc)
+					if ok && op == token.EQL && isNilConst(y) && len(g.Params) > 0 && x == ssa.Value(g.Params[0]) {
+						return true
+					}
+				}
+				return false
+			})
+			c.check(hit == nil, nm+"/always-stores-width", c.pos(g.Pos()), "the width given is stored on every path", "the width given can be ignored (an early return before the store): the line keeps being laid out for the old width", c.pathStr(path)...)
+		}
 		for _, ci := range stores {
 			okV := true
 			for _, l := range origins(ci.Common().Args[1], originOpts{}) {
@@ -524,5 +560,78 @@ func c20R6(c *Ctx) {
 			}
 			c.check(okV, nm+"/stores-width", c.ipos(ci), "the stored width is the one given (or pane width - 1)", "the stored width is not the one given")
 		}
+	}
+}
+
+// c20R7: rendering never fails — every count handed to a panicking-on-negative library call in the functions the
+// progress line is rendered by (strings.Builder.Grow, bytes.Buffer.Grow, strings.Repeat) is provably not negative:
+// a non-negative constant, a value with a dominating fact v >= k / v > k (k >= 0), the result of a clamp, or a
+// parameter of the enclosing function all of whose call sites (two levels) pass such a value.
+func c20R7(c *Ctx) {
+	roots := []*ssa.Function{c.fn("textProgressBar.showProgress")}
+	reach := c.reachableFrom(roots...)
+	var nonNeg func(v ssa.Value, at *ssa.BasicBlock, depth int) (bool, string)
+	nonNeg = func(v ssa.Value, at *ssa.BasicBlock, depth int) (bool, string) {
+		for _, l := range origins(v, originOpts{}) {
+			lv := strip(l.V)
+			if k, isC := constInt(lv); isC {
+				if k < 0 {
+					return false, "negative constant"
+				}
+				continue
+			}
+			fs := append(append([]fact{}, factsAt(at)...), l.facts()...)
+			isNN := func(k ssa.Value) bool { z, ok := constInt(k); return ok && z >= 0 }
+			if factCmp(fs, token.GEQ, isValue(lv), isNN) || factCmp(fs, token.GTR, isValue(lv), isNN) {
+				continue
+			}
+			if lc, _ := callOf(lv); lc != nil && (calleeID(&lc.Call) == "builtin len" || isMinFunc(lc.Call.StaticCallee()) && false) {
+				continue
+			}
+			if p, isP := lv.(*ssa.Parameter); isP && depth < 2 {
+				fn := p.Parent()
+				idx := -1
+				for i, q := range fn.Params {
+					if q == p {
+						idx = i
+					}
+				}
+				sites := c.callersOf(fn)
+				if idx < 0 || len(sites) == 0 {
+					return false, "parameter " + p.Name() + " with no visible caller"
+				}
+				for _, cs := range sites {
+					args := cs.Instr.Common().Args
+					if idx >= len(args) {
+						return false, "call site shape"
+					}
+					if ok, why := nonNeg(args[idx], cs.Instr.Block(), depth+1); !ok {
+						return false, "call at " + c.ipos(cs.Instr) + ": " + why
+					}
+				}
+				continue
+			}
+			return false, "value " + lv.String() + " is not bounded from below"
+		}
+		return true, ""
+	}
+	n := 0
+	for _, f := range c.AllFns {
+		if !reach[f] || !c.inPkg(f) {
+			continue
+		}
+		for _, ci := range callsIn(f, idIs("(*strings.Builder).Grow", "(*bytes.Buffer).Grow", "strings.Repeat")) {
+			if calleeID(ci.Common()) == "strings.Repeat" && c.fnName(f) == "textProgressBar.getProgressBar" {
+				continue // the bar's cell counts: clamp structure checked by C20-R1
+			}
+			n++
+			arg := ci.Common().Args[1]
+			ok, why := nonNeg(arg, ci.Block(), 0)
+			id := calleeID(ci.Common())
+			c.check(ok, "non-negative/"+c.fnName(f)+"/"+id[strings.LastIndex(id, ".")+1:], c.ipos(ci), "the count cannot be negative", "a count that can be negative reaches a call that panics on a negative count (rendering fails): "+why)
+		}
+	}
+	if n < 1 {
+		c.undecided("non-negative/sites", "no Grow / Repeat site found in the rendering functions")
 	}
 }
